@@ -149,8 +149,14 @@ pub fn cases(opts: &Opts) -> Vec<Case> {
         let mut name = format!("gen/{i}");
         // every third project carries several independent errors (diagnostic order matters)
         if i % 3 == 2 {
-            let pi = p.usize(proj.pkgs.len());
-            proj.pkgs[pi].raw = crate::genp::variants::multi_error_text(&mut p);
+            // several packages fail at once: the order of diagnostics *across* packages matters too
+            let k = 1 + p.usize(3);
+            for _ in 0..k {
+                let pi = p.usize(proj.pkgs.len());
+                if proj.pkgs[pi].raw.is_empty() {
+                    proj.pkgs[pi].raw = crate::genp::variants::multi_error_text(&mut p);
+                }
+            }
             name.push_str("+errors");
         }
         let keep = if i % 3 == 2 { None } else { Some(proj.clone()) };
